@@ -192,6 +192,11 @@ func (m *mockInfo) meta() *lint.LintMetadata {
 
 var mocks []*mockInfo
 
+// depLints: one long-lived value of the deprecated lint.Lint type per certificate mock. Its window fields are
+// rewritten in place for every case (the Name never changes) and a by-value copy gets other dates still: a
+// history of uses on the deprecated API, each of which must honour the dates the value holds at that moment.
+var depLints = map[string]*lint.Lint{}
+
 func init() {
 	pfx := []string{"e_", "w_", "n_"}
 	for si, src := range allSources {
@@ -460,6 +465,43 @@ func judge(rec *stats.Rec, c mockCase, prop string) (string, string) {
 				rec.Class("c09_twin_compared")
 			}
 		}
+	}
+	if prop == "C03" && c.Kind == gen.Cert && panicked1 == "" {
+		for _, ms := range c.Mocks {
+			mi := byName(ms.Name)
+			if mi == nil || mi.Kind != gen.Cert || ms.Script.PanicAt != "" || ms.Script.Outcome < 0 {
+				continue
+			}
+			dl := depLints[ms.Name]
+			if dl == nil {
+				dl = &lint.Lint{Name: mi.cert.Name, Description: mi.cert.Description, Citation: mi.cert.Citation, Source: mi.cert.Source, Lint: mi.cert.Lint}
+				depLints[ms.Name] = dl
+			}
+			m := mi.meta()
+			dl.EffectiveDate, dl.IneffectiveDate = m.EffectiveDate, m.IneffectiveDate
+			want := model.Window(m.EffectiveDate, m.IneffectiveDate, date)
+			if got := dl.CheckEffective(cert); got != want {
+				return "deprecated-window|stale", fmt.Sprintf("%s: a lint.Lint value whose dates were set to [%s, %s) answers CheckEffective=%v for an object dated %s", ms.Name, fmtT(m.EffectiveDate), fmtT(m.IneffectiveDate), got, date.UTC().Format(time.RFC3339Nano))
+			}
+			if r := dl.Execute(cert, reg.GetConfiguration()); r != nil && rs1 != nil && rs1.Results[ms.Name] != nil && r.Status != rs1.Results[ms.Name].Status && !(mi.Configurable && ms.BadConfig) {
+				return "deprecated-verdict|stale", fmt.Sprintf("%s: lint.Lint.Execute reports %s, the registered lint with the same dates %s", ms.Name, r.Status, rs1.Results[ms.Name].Status)
+			}
+			// a by-value copy with the window shifted to exclude / include the object
+			cp := *dl
+			if want {
+				cp.EffectiveDate = date.Add(time.Second)
+				cp.IneffectiveDate = time.Time{}
+			} else {
+				cp.EffectiveDate, cp.IneffectiveDate = time.Time{}, time.Time{}
+			}
+			if got := cp.CheckEffective(cert); got == want {
+				return "deprecated-window|copy", fmt.Sprintf("%s: a copy of a used lint.Lint value keeps the original's window after its dates were changed", ms.Name)
+			}
+		}
+		mu.Lock()
+		calls = nil
+		cfgSeen = map[string][]string{}
+		mu.Unlock()
 	}
 	rs, panicked = rs1, panicked1
 	// what each configurable mock saw must be what the document says
